@@ -804,6 +804,18 @@ Definition set_incall (h : hub) (k : N * N) (sid : N) (on : bool) : hub :=
   | None => h
   end.
 
+(* a member of a room that is being deleted leaves it (with notification); connected ones are told *)
+Definition delete_member (hh : hub) (m : N) : hub * list out :=
+  match get_sess hh m with
+  | None => (hh, [])
+  | Some s =>
+      let '(h2, outs1) := leave_room hh m true in
+      if is_virtual s.(s_kind) then (h2, outs1)
+      else match s.(s_conn) with
+           | Some _ => let '(h3, outs2) := send_session h2 m (SRoom 0) in (h3, outs1 ++ outs2)
+           | None => (h2, outs1) end
+  end.
+
 (* the room's handling of a request coming from the room API *)
 Definition room_request (h : hub) (k : N * N) (q : apireq) : hub * list out :=
   match room_of h k with
@@ -816,16 +828,7 @@ Definition room_request (h : hub) (k : N * N) (q : apireq) : hub * list out :=
           let internals := filter (fun m => match get_sess h m with Some s => is_internal s.(s_kind) | None => false end) members in
           let '(h0, outs0) := fold_sessions h internals (fun hh m => send_session hh m SRoomDeleted) in
           let h1 := set_rooms h0 (pdel h0.(h_rooms) k) in
-          let '(h9, outs9) := fold_sessions h1 members (fun hh m =>
-            match get_sess hh m with
-            | None => (hh, [])
-            | Some s =>
-                let '(h2, outs1) := leave_room hh m true in
-                if is_virtual s.(s_kind) then (h2, outs1)
-                else match s.(s_conn) with
-                     | Some _ => let '(h3, outs2) := send_session h2 m (SRoom 0) in (h3, outs1 ++ outs2)
-                     | None => (h2, outs1) end
-            end) in
+          let '(h9, outs9) := fold_sessions h1 members delete_member in
           (h9, outs0 ++ outs9)
       | AUpdate tag =>
           if N.eqb r.(r_props) (tag + 1) then (h, [])
